@@ -486,11 +486,17 @@ impl PrunePack {
     }
 
     /// Convert the `PrunePack` into an `IndexPack`. Set time of not already set.
+    /// The size to record in the index: only needed if it cannot be computed from the blobs,
+    /// i.e. for unindexed packs which have been marked for deletion without blob information.
+    fn index_size(&self) -> Option<u32> {
+        self.blobs.is_empty().then_some(self.size)
+    }
+
     fn into_index_pack(self, time: Timestamp) -> IndexPack {
         IndexPack {
             id: self.id,
             time: self.time.or(Some(time)),
-            size: None,
+            size: self.index_size(),
             blobs: self.blobs,
         }
     }
@@ -504,7 +510,7 @@ impl PrunePack {
         IndexPack {
             id: self.id,
             time: Some(time),
-            size: None,
+            size: self.index_size(),
             blobs: self.blobs,
         }
     }
